@@ -110,6 +110,34 @@ def wrap_always(run, rid):
         run.ob(rid, sa, t.ast, 'a list value is replaced by a _ListWrapper', bool(ws), slot='wrap-site', message='no _ListWrapper(...) assignment under isinstance(value, list)')
 
 
+def r10_8(run):
+    """a filesystem onion service is part of the HiddenServices option: assigning one of its settings, or editing its port list in
+    place, marks that option as pending (otherwise the change never reaches Tor on save); setters stay effect-free (R10.1)"""
+    fs = run.idx.cls('FilesystemOnionService', 'onion')
+    if fs is None:
+        raise AnchorVanished('onion.FilesystemOnionService')
+    k = 0
+    setters = [u for u in run.idx.all_units() if u.owner_cls is fs and any(d.endswith('.setter') for d in u.decorators())]
+    for u in setters:
+        k += 1
+        g = cfg_of(u)
+        marks = g.nodes_where(lambda n: any(isinstance(a, ast.Call) and (dotted(a.func) or '').endswith('.mark_unsaved') and a.args and const(a.args[0]) == 'HiddenServices'
+                                            for a in node_asts(n)))
+        deleg = g.nodes_where(lambda n: n.kind == 'stmt' and isinstance(n.ast, ast.Assign) and any((dotted(t) or '').startswith('self.') and not (dotted(t) or '').startswith('self._')
+                                                                                                 for t in n.ast.targets))
+        r = g.reachable([g.entry], avoid=lambda n: n in marks or n in deleg, follow_exc=False)
+        run.ob('R10.8', u, u.node, 'assigning %s of a filesystem onion service marks HiddenServices as pending' % u.name, not any(e in r for e in g.normal_exits()),
+               slot='setter-marks:%s' % u.name, message='FilesystemOnionService.%s setter can return without mark_unsaved(\'HiddenServices\'): save() sends nothing for the change' % u.name)
+        if u.name == 'ports':
+            lw_names = set(['_ListWrapper']) | set((al.asname or al.name) for im in walk_unit(u) if isinstance(im, ast.ImportFrom) for al in im.names if al.name == '_ListWrapper')
+            wr = [n for n in walk_unit(u) if isinstance(n, ast.Call) and dotted(n.func) in lw_names]
+            okw = bool(wr) and all(len(c.args) == 2 and isinstance(c.args[1], ast.Call) and dotted(c.args[1].func) in ('functools.partial', 'partial')
+                                   and (dotted(c.args[1].args[0]) or '').endswith('.mark_unsaved') and const(c.args[1].args[1]) == 'HiddenServices' for c in wr)
+            run.ob('R10.8', u, u.node, 'the port list is a tracked list bound to HiddenServices', okw, slot='ports-tracked',
+                   message='the ports setter does not wrap the list in _ListWrapper(..., partial(mark_unsaved, \'HiddenServices\')): in-place edits of .ports are not tracked')
+    run.floor('R10.8', 'setters of FilesystemOnionService', k, 3)
+
+
 def r10_7(run):
     """every attribute assignment in setup mode becomes the pending value (last assignment wins)"""
     sa = CU(run, '__setattr__')
@@ -453,6 +481,7 @@ def r10_6(run):
 
 RULES = [
     ('R10.7', 'setter post-condition: every assignment reaches unsaved[name] = value; every list value is wrapped for its own option', r10_7),
+    ('R10.8', 'onion-service setters mark HiddenServices pending; the port list is tracked', r10_8),
     ('R10.6', 'identity flow: the pending list object itself becomes the current value (no copy / re-wrap on the list leg)', r10_6),
     ('R10.1', 'effect analysis on the call graph: nothing reachable from attribute access / list wrappers sends a command', r10_1),
     ('R10.2', 'tracked mutators: the six list mutators are wrapped; wrapper calls on_modify and the original once; mark_unsaved aliases the live list', r10_2),
@@ -464,6 +493,7 @@ RULES = [
 from ..selftest import M  # noqa: E402
 F = 'txtorcon/torconfig.py'
 MUTANTS = [
+    M('ports-setter-no-mark', 'txtorcon/onion.py', "            functools.partial(self._config.mark_unsaved, 'HiddenServices'),\n        )\n        self._config.mark_unsaved('HiddenServices')\n\n    @property\n    def directory(self):", "            functools.partial(self._config.mark_unsaved, 'HiddenServices'),\n        )\n\n    @property\n    def directory(self):", ['R10.8']),
     M('hs-leg-breaks', F, "                            args.append(k)\n                            args.append(v)\n                continue\n", "                            args.append(k)\n                            args.append(v)\n                break\n", ['R10.3']),
     M('wrap-only-without-validate', F, "                value = self.parsers[name].validate(value, self, name)\n            if isinstance(value, list):", "                value = self.parsers[name].validate(value, self, name)\n            elif isinstance(value, list):", ['R10.7']),
     M('ack-clears-only-equal', F, "        self.__dict__['unsaved'] = {}\n        return self", "        for key in list(self.unsaved):\n            if self.unsaved[key] == self.config.get(key):\n                del self.unsaved[key]\n        return self", ['R10.5']),
